@@ -421,6 +421,67 @@ func minMaxGuard(fn *ssa.Function, st *ssa.Store, fa *ssa.FieldAddr, kind string
 	if len(disj) == 0 {
 		return "the store is not guarded by a comparison", false
 	}
+	// the comparison chain itself must be evaluated unconditionally: every path
+	// through Add passes the first test of the chain
+	{
+		var first *ssa.If
+		for _, d := range disj {
+			ifi := trueImpliesIf(d)
+			if ifi == nil {
+				continue
+			}
+			// the If that evaluates d directly
+			for _, r := range refs(d) {
+				if x, ok := r.(*ssa.If); ok {
+					ifi = x
+				}
+			}
+			if first == nil || instrDominates(ifi, first) {
+				first = ifi
+			}
+		}
+		if first != nil {
+			set := explore(fn.Blocks[0].Instrs[0], true, func(i ssa.Instruction) bool { return i == ssa.Instruction(first) })
+			if len(returnsIn(set)) > 0 {
+				return "the min/max comparison is skipped on some path through Add (an extra condition decides whether the accumulator may move): the result then depends on the order of addition", false
+			}
+		}
+	}
+	{
+		known := map[ssa.Value]bool{}
+		for _, d := range disj {
+			known[d] = true
+		}
+		for _, f := range factsAt(blk) {
+			if known[f.Cond] {
+				continue
+			}
+			if phi, isPhi := f.Cond.(*ssa.Phi); isPhi {
+				all := true
+				for _, e := range phi.Edges {
+					if _, isC := e.(*ssa.Const); !isC && !known[e] {
+						all = false
+					}
+				}
+				if all {
+					continue
+				}
+			}
+			// facts that are negations of earlier disjuncts of the same chain are fine (a || b: b evaluated when !a)
+			if f.If != nil && !f.Val {
+				isEarlier := false
+				for _, d := range disj {
+					if d == f.Cond {
+						isEarlier = true
+					}
+				}
+				if isEarlier {
+					continue
+				}
+			}
+			return "the min/max update is skipped under an extra condition (" + describeVal(f.Cond) + "): the result then depends on the order of addition", false
+		}
+	}
 	fieldPath := path(fa)
 	isField := func(v ssa.Value) bool {
 		ld, ok := isLoad(stripConv(v))
@@ -512,19 +573,26 @@ func c10ClosePure(c *Ctx, mAdd, mClose *ssa.Function) {
 	addE := transitiveEffects(mAdd)
 	closeE := transitiveEffects(mClose)
 	lazy := lazyInitFields(append(inPackageCallees([]*ssa.Function{mAdd}), inPackageCallees([]*ssa.Function{mClose})...))
+	lazySites := lazyInitStores(inPackageCallees([]*ssa.Function{mClose}))
 	var overlap []string
 	var sites []string
 	for _, k := range sortedKeys(closeE.writes) {
-		if _, rd := addE.reads[k]; rd && !lazy[k] {
-			overlap = append(overlap, k)
-			sites = append(sites, c.at(closeE.writes[k][0]))
-		}
-		// also: a field both written by Close and written by Add (Add's sums read it too)
-		if _, wr := addE.writes[k]; wr && !lazy[k] {
-			if _, rd := addE.reads[k]; !rd {
-				overlap = append(overlap, k+" (written by both)")
-				sites = append(sites, c.at(closeE.writes[k][0]))
+		// the exemption is per store site: only a store that is itself guarded by `field == nil` is lazy initialisation
+		var real []ssa.Instruction
+		for _, w := range closeE.writes[k] {
+			if !lazySites[w] {
+				real = append(real, w)
 			}
+		}
+		if len(real) == 0 {
+			continue
+		}
+		if _, rd := addE.reads[k]; rd {
+			overlap = append(overlap, k)
+			sites = append(sites, c.at(real[0]))
+		} else if _, wr := addE.writes[k]; wr {
+			overlap = append(overlap, k+" (written by both)")
+			sites = append(sites, c.at(real[0]))
 		}
 	}
 	if len(closeE.writes) == 0 {
